@@ -191,7 +191,7 @@ func GenFailover(t *testing.T, rng *rand.Rand, o FOpts) FOut {
 			gets = append(gets, g)
 		}
 
-		pol := Policy{FaultProb: o.FaultProb, ArriveEarly: 0.45, SleepProb: 0.12, MaxSteps: 2000,
+		pol := Policy{FaultProb: o.FaultProb, ArriveEarly: 0.45, SleepProb: 0.12, MaxSteps: 2000, HoldBuilders: []float64{0, 0.5, 0.8}[rng.Intn(3)],
 			Sleeps: []int64{1, int64(time.Second), int64(6 * time.Second), int64(12 * time.Second), int64(25 * time.Second), int64(61 * time.Second)}}
 		if o.NoLongSleeps {
 			pol.Sleeps = []int64{1, int64(time.Second)}
